@@ -42,6 +42,9 @@ THEOREMS = [
     'C20_json_rejects_trailing',
     'C20_json_ws_exact',
     'C20_json_string_roundtrip',
+    'C20_json_roundtrip',
+    'C20_json_rejects_trailing_any',
+    'C20_json_roundtrip_nonvacuous',
     'C20_json_nonvacuous',
     'C20_bash_unescape_escape',
     'C20_xml_escape_no_specials',
